@@ -598,7 +598,8 @@ Definition next_cancel (ms : list member) (k : Z) (u : upto) (s i : nat) (c : op
   end.
 
 Lemma release_upto_plain : forall ms w s h t k u,
-  all_plain ms -> live_is w (h :: t) -> w_cons w = CUpTo k u ->
+  all_plain ms \/ (failed ms h && (k <? u_cnt u + 1)) = false ->
+  live_is w (h :: t) -> w_cons w = CUpTo k u ->
   release ms w s h =
   settle s (mkW (CUpTo k (upto_recv ms u h)) (next_cancel ms k u s h (w_cancel w)) (w_ret w)
                 (set_nth h false (w_live w)) (w_saw w) (w_lost w)).
@@ -610,7 +611,8 @@ Proof.
   rewrite C. simpl is_done. cbv iota. rewrite recv_upto. simpl is_done. cbv iota.
   simpl w_cancel. unfold next_cancel.
   destruct (w_cancel w) eqn:K; [reflexivity|].
-  destruct (failed ms h && (k <? u_cnt u + 1)); [|reflexivity].
+  destruct (failed ms h && (k <? u_cnt u + 1)) eqn:FK; [|reflexivity].
+  destruct AP as [AP|AP]; [|congruence].
   rewrite flush_plain by auto. reflexivity.
 Qed.
 
@@ -623,7 +625,7 @@ Definition final_cancel (ms : list member) (k : Z) (u : upto) (s : nat) (t : lis
   end.
 
 Lemma upto_run_plain : forall ms k t w s u,
-  all_plain ms -> live_is w t -> NoDup t -> w_cons w = CUpTo k u -> t <> [] ->
+  all_plain ms \/ flag ms k (u_cnt u) s t = None -> live_is w t -> NoDup t -> w_cons w = CUpTo k u -> t <> [] ->
   let w' := releases ms w s t in
   w_cons w' = CDone (closed (CUpTo k (upto_fold ms u t))) /\
   w_ret w' = Some (s + List.length t - 1) /\
@@ -632,7 +634,13 @@ Lemma upto_run_plain : forall ms k t w s u,
 Proof.
   intros ms k t. induction t as [|h t IH]; intros w s u AP LI ND C NE; [congruence|].
   cbv zeta. simpl releases.
-  rewrite (release_upto_plain ms w s h t k u AP LI C).
+  assert (AP0 : all_plain ms \/ (failed ms h && (k <? u_cnt u + 1))%Z = false).
+  { destruct AP as [AP|AP]; [left; auto|right]. cbn [flag] in AP.
+    destruct (failed ms h); simpl; auto. destruct (k <? u_cnt u + 1)%Z; [discriminate|auto]. }
+  assert (AP1 : all_plain ms \/ flag ms k (u_cnt (upto_recv ms u h)) (S s) t = None).
+  { destruct AP as [AP|AP]; [left; auto|right]. cbn [flag] in AP. unfold upto_recv. simpl u_cnt.
+    destruct (failed ms h); auto. destruct (k <? u_cnt u + 1)%Z; [discriminate|auto]. }
+  rewrite (release_upto_plain ms w s h t k u AP0 LI C).
   set (w1 := mkW (CUpTo k (upto_recv ms u h)) (next_cancel ms k u s h (w_cancel w)) (w_ret w)
                  (set_nth h false (w_live w)) (w_saw w) (w_lost w)).
   assert (LI1 : live_is w1 t) by (apply (live_is_step w h t ND LI)).
@@ -650,7 +658,7 @@ Proof.
       rewrite (live_is_cons_not_all_dead w1 h2 t2 LI1). reflexivity. }
     rewrite ST.
     assert (NE2 : h2 :: t2 <> []) by discriminate.
-    specialize (IH w1 (S s) (upto_recv ms u h) AP LI1 NDt eq_refl NE2). cbv zeta in IH.
+    specialize (IH w1 (S s) (upto_recv ms u h) AP1 LI1 NDt eq_refl NE2). cbv zeta in IH.
     destruct IH as [I1 [I2 [I3 I4]]]. rewrite I1, I2, I3, I4.
     repeat split; auto.
     + f_equal. simpl List.length. lia.
@@ -751,13 +759,14 @@ Proof.
   replace (S (x - 1)) with x by lia. reflexivity.
 Qed.
 
-Lemma all_returned_plain : forall ms order c, all_plain ms -> is_perm order (List.length ms) ->
+Lemma all_returned_plain : forall ms order c, (all_plain ms \/ c = None) -> is_perm order (List.length ms) ->
   all_returned_at ms order c = List.length ms.
 Proof.
   intros ms order c AP P. unfold all_returned_at.
   assert (E : forall s i, returned_by ms order c s i = (pos i order <? s)).
-  { intros s i. unfold returned_by, cancelled_member. destruct c; rewrite ?(AP i); simpl;
-      rewrite orb_false_r; reflexivity. }
+  { intros s i. unfold returned_by, cancelled_member. destruct AP as [AP| ->].
+    - destruct c; rewrite ?(AP i); simpl; rewrite orb_false_r; reflexivity.
+    - simpl. rewrite orb_false_r. reflexivity. }
   assert (F : find (fun s => forallb (returned_by ms order c s) (members ms)) (seq 0 (S (List.length ms)))
               = Some (List.length ms)).
   { apply find_seq_some. split; [lia|]. split.
@@ -774,8 +783,9 @@ Proof.
   rewrite F. reflexivity.
 Qed.
 
-Theorem upto_meets_contract_plain : forall k ms order,
-  all_plain ms -> is_perm order (List.length ms) ->
+(* members that ignore their context, or a run in which the budget is never exceeded *)
+Theorem upto_meets_contract_noflush : forall k ms order,
+  (all_plain ms \/ decided_at k ms order = None) -> is_perm order (List.length ms) ->
   par_result true ms (run_par (CUpTo k (empty_upto (List.length ms))) ms order) = upto_contract k ms order.
 Proof.
   intros k ms order AP P. destruct order as [|i t].
@@ -785,7 +795,10 @@ Proof.
     set (n := List.length ms).
     set (w0 := init_world (CUpTo k (empty_upto n)) n).
     assert (NE : i :: t <> []) by discriminate.
-    destruct (upto_run_plain ms k (i :: t) w0 1 (empty_upto n) AP (init_live_is _ _ _ P)
+    assert (AP2 : all_plain ms \/ flag ms k (u_cnt (empty_upto n)) 1 (i :: t) = None).
+    { destruct AP as [AP|AP]; [left; auto|right]. simpl u_cnt.
+      rewrite (flag_decided ms k (i :: t) (perm_length _ _ P)). auto. }
+    destruct (upto_run_plain ms k (i :: t) w0 1 (empty_upto n) AP2 (init_live_is _ _ _ P)
                 (perm_nodup _ _ P) eq_refl NE) as [R1 [R2 [R3 R4]]].
     unfold par_result, upto_contract. rewrite R1, R2, R3, R4. fold n.
     rewrite (all_returned_plain ms (i :: t) _ AP P). fold n.
@@ -799,7 +812,8 @@ Proof.
       - rewrite saw_spec_length, repeat_length. reflexivity.
       - intros j Hj. rewrite repeat_length in Hj. unfold saw_spec, members.
         rewrite nth_map_seq by auto. rewrite nth_repeat' by auto.
-        unfold cancelled_member. destruct (decided_at k ms (i :: t)); auto. rewrite (AP j). reflexivity. }
+        unfold cancelled_member. destruct (decided_at k ms (i :: t)) eqn:DD; auto.
+        destruct AP as [AP|AP]; [rewrite (AP j); reflexivity|congruence]. }
     rewrite SAW.
     assert (RES : u_res (upto_fold ms (empty_upto n) (i :: t)) =
                   map (fun j => if cancelled_member ms (i :: t) (decided_at k ms (i :: t)) j then 0%Z
@@ -810,7 +824,8 @@ Proof.
         rewrite upto_fold_res by (simpl; rewrite repeat_length; auto).
         unfold members. rewrite nth_map_seq by auto.
         assert (E : inb j (i :: t) = true) by (apply inb_true; apply (perm_in _ _ j P); auto).
-        rewrite E. unfold cancelled_member. destruct (decided_at k ms (i :: t)); auto. rewrite (AP j). reflexivity. }
+        rewrite E. unfold cancelled_member. destruct (decided_at k ms (i :: t)) eqn:DD; auto.
+        destruct AP as [AP|AP]; [rewrite (AP j); reflexivity|congruence]. }
     assert (ERR : closed (CUpTo k (upto_fold ms (empty_upto n) (i :: t))) =
                   RSlice (u_res (upto_fold ms (empty_upto n) (i :: t)))
                          (if (Z.max k 0 <? nfails ms (i :: t))%Z then first_err ms (i :: t) else 0%Z)).
@@ -829,6 +844,11 @@ Proof.
     rewrite ERR, RES. unfold first_err.
     destruct (decided_at k ms (i :: t)); reflexivity.
 Qed.
+
+Theorem upto_meets_contract_plain : forall k ms order,
+  all_plain ms -> is_perm order (List.length ms) ->
+  par_result true ms (run_par (CUpTo k (empty_upto (List.length ms))) ms order) = upto_contract k ms order.
+Proof. intros k ms order AP P. apply upto_meets_contract_noflush; auto. Qed.
 
 (* ---- Execute: dispatch and placement of the single result ---- *)
 Lemma place_placed : forall ms x,
